@@ -56,6 +56,20 @@ class HarnessError(Exception):
     pass
 
 
+def is_harness_exc(e: BaseException) -> bool:
+    """True if the exception was raised by the verification machinery itself (innermost frame under /verif/vf):
+    such an error must end the check with exit code 2, never as a VIOLATION."""
+    import os as _os
+
+    here = _os.path.dirname(_os.path.abspath(__file__))
+    tb = e.__traceback__
+    last = None
+    while tb is not None:
+        last = tb
+        tb = tb.tb_next
+    return last is not None and _os.path.abspath(last.tb_frame.f_code.co_filename).startswith(here) and not isinstance(e, AssertionError)
+
+
 def current_task():
     return getattr(_tl, "task", None)
 
